@@ -142,9 +142,10 @@ type simRegistry struct {
 }
 
 type simUpload struct {
-	id   string
-	repo string
-	data map[int64][]byte // offset -> chunk
+	id     string
+	repo   string
+	data   map[int64][]byte // offset -> chunk
+	reject bool             // the registry rejects every commit of this upload session
 }
 
 func newSimRegistry(now func() time.Duration) *simRegistry {
@@ -581,7 +582,13 @@ func (r *simRegistry) upload(req *http.Request, repo, rest string, body []byte) 
 			return simText(req, 404, "unknown upload"), nil
 		}
 		d := req.URL.Query().Get("digest")
+		if u.reject {
+			verifsim.Probe("commit_rejected_persistently")
+			return simText(req, 400, `{"errors":[{"code":"DIGEST_INVALID","message":"injected, persistent"}]}`), nil
+		}
 		if r.plan.pick("net_upload_commit_rejected") != "" {
+			// a registry that does not accept the assembled blob keeps saying so
+			u.reject = verifsim.Draw("commit-reject-sticky", 2) == 0
 			return simText(req, []int{500, 400}[verifsim.Draw("commit-reject", 2)], `{"errors":[{"code":"BLOB_UPLOAD_INVALID","message":"injected"}]}`), nil
 		}
 		var offs []int64
